@@ -55,14 +55,33 @@ struct gauss_seidel : public amgcl::relaxation::gauss_seidel<Backend> {
     template <class Matrix, class VectorRHS, class VectorX, class VectorTMP>
     void apply_pre(const Matrix &A, const VectorRHS &rhs, VectorX &x, VectorTMP &t) const
     {
-        Base::apply_pre(*A.local_backend(), rhs, x, t);
+        local_rhs(A, rhs, x, t);
+        Base::apply_pre(*A.local_backend(), t, x, t);
     }
 
     /// \copydoc amgcl::relaxation::damped_jacobi::apply_post
     template <class Matrix, class VectorRHS, class VectorX, class VectorTMP>
     void apply_post(const Matrix &A, const VectorRHS &rhs, VectorX &x, VectorTMP &t) const
     {
-        Base::apply_post(*A.local_backend(), rhs, x, t);
+        local_rhs(A, rhs, x, t);
+        Base::apply_post(*A.local_backend(), t, x, t);
+    }
+
+    // The sweep is local to the subdomain; the contribution of the ghost values
+    // is moved to the right-hand side: t = rhs - A_rem * x_rem
+    // (block-Jacobi between the subdomains, Gauss-Seidel inside).
+    template <class Matrix, class VectorRHS, class VectorX, class VectorTMP>
+    static void local_rhs(const Matrix &A, const VectorRHS &rhs, const VectorX &x, VectorTMP &t)
+    {
+        typedef typename math::scalar_of<typename Backend::value_type>::type scalar_type;
+        const auto one = math::identity<scalar_type>();
+
+        A.cpat().start_exchange(x);
+        backend::copy(rhs, t);
+        A.cpat().finish_exchange();
+
+        if (A.cpat().needs_remote())
+            backend::spmv(-one, *A.remote_backend(), *A.cpat().x_rem, one, t);
     }
 
     template <class Matrix, class VectorRHS, class VectorX>
